@@ -486,8 +486,9 @@ def _op(focus=None):
         "isosteric_enthalpy": with_kw(st.builds(lambda b, o: {"op": "isosteric_enthalpy", "branch": b, "order": o}, st.just("ads"), st.integers(0, 1)), _KW["isosteric_enthalpy"]),
         "whittaker": with_kw(st.builds(lambda i, m: {"op": "whittaker", "iso": i, "model": m}, iso, st.sampled_from(["Langmuir", "Toth"])), _KW["whittaker"]),
         "model_iso": st.builds(lambda i, b, m, bad: dict({"op": "model_iso", "iso": i, "branch": b, "model": m},
-                                                        **({"kw": {"param_guess": _BAD_GUESS[m]}} if bad and m in _BAD_GUESS else {})),
-                               iso, br, st.sampled_from(["Langmuir", "Henry", "DSLangmuir", "Toth"]),
+                                                        **({"kw": {"param_guess": _BAD_GUESS[m]}} if bad and isinstance(m, str) and m in _BAD_GUESS else {})),
+                               # 'guess': the library tries its list of candidate models and keeps the best
+                               iso, br, st.sampled_from(["Langmuir", "Henry", "DSLangmuir", "Toth"] * 2 + ["guess", ["Henry", "Langmuir"]]),
                                st.sampled_from([False, False, True])),
         "model_overrange": st.builds(lambda a, qq: {"op": "model_overrange", "p1": round(a, 4), "q": round(qq, 3)},
                                      st.floats(0.05, 3), q),
